@@ -278,7 +278,8 @@ class CFG:
         return [n for n in self.live if pred(n)]
 
     def path_avoiding(self, start: Node, goals: Iterable[Node], avoid: Iterable[Node],
-                      labels: set[str] | None = None, include_start: bool = False) -> list[Node] | None:
+                      labels: set[str] | None = None, include_start: bool = False,
+                      edge_ok: Callable[[Node, Node, str], bool] | None = None) -> list[Node] | None:
         """A path start -> some goal that passes through no node of `avoid` (start itself exempt)."""
         goals = set(goals)
         avoid = set(avoid)
@@ -288,6 +289,8 @@ class CFG:
             return [start]
         for t, lab in start.succ:
             if labels is not None and lab not in labels:
+                continue
+            if edge_ok is not None and not edge_ok(start, t, lab):
                 continue
             if t in avoid or t in prev:
                 continue
@@ -302,6 +305,8 @@ class CFG:
                 return [start, *reversed(path)]
             for t, lab in n.succ:
                 if labels is not None and lab not in labels:
+                    continue
+                if edge_ok is not None and not edge_ok(n, t, lab):
                     continue
                 if t in avoid or t in prev:
                     continue
@@ -325,46 +330,67 @@ class CFG:
             self._dom = _dominators(self.live, self.entry, lambda n: [p for p, _ in n.pred])
         return self._dom
 
-    def postdominators(self) -> dict[Node, set[Node]]:
-        """Post-dominators w.r.t. a virtual sink joining normal and exceptional exit."""
-        if self._pdom is None:
+    def postdominators(self, cut: Node | None = None) -> dict[Node, set[Node]]:
+        """Post-dominators w.r.t. a virtual sink joining normal and exceptional exit.
+
+        With `cut` (a loop header) the back edges into it are redirected to the sink, which gives the
+        post-dominators of *one iteration* of that loop.
+        """
+        key = cut.idx if cut is not None else -1
+        cache = self.__dict__.setdefault("_pdom_cache", {})
+        if key not in cache:
             sink = Node(-1, "sink")
+            back_src: set[Node] = set()
+            if cut is not None:
+                reach = self.reachable_from(cut)
+                back_src = {p for p, _ in cut.pred if p in reach}
+
             def preds(n: Node) -> list[Node]:
                 if n is sink:
                     return []
-                out = [t for t, _ in n.succ]
+                out = []
+                for t, _ in n.succ:
+                    if t is cut and n in back_src:
+                        out.append(sink)
+                    else:
+                        out.append(t)
                 if n is self.exit or n is self.raise_exit:
                     out.append(sink)
                 return out
             live = [*self.live, sink]
-            self._pdom = _dominators(live, sink, preds)
-            for k in self._pdom:
-                self._pdom[k].discard(sink)
-        return self._pdom
+            pd = _dominators(live, sink, preds)
+            for k in pd:
+                pd[k].discard(sink)
+            pd.pop(sink, None)
+            cache[key] = (pd, back_src)
+        return cache[key][0]
 
     def dominates(self, a: Node, b: Node) -> bool:
         return a in self.dominators().get(b, set())
 
-    def control_deps(self, n: Node) -> set[tuple[Node, str]]:
+    def control_deps(self, n: Node, cut: Node | None = None) -> set[tuple[Node, str]]:
         """Direct control dependences of n: (branch node, label of the edge that commits to n)."""
-        pdom = self.postdominators()
+        pdom = self.postdominators(cut)
+        back_src = self.__dict__["_pdom_cache"][cut.idx if cut is not None else -1][1]
         out: set[tuple[Node, str]] = set()
         for b in self.live:
             if len(b.succ) < 2:
                 continue
             for s, lab in b.succ:
+                if cut is not None and s is cut and b in back_src:
+                    continue
                 if (n is s or n in pdom.get(s, set())) and not (n is not b and n in pdom.get(b, set())):
                     out.add((b, lab))
         return out
 
-    def control_closure(self, n: Node) -> set[tuple[Node, str]]:
-        """Transitive control dependences."""
+    def control_closure(self, n: Node, cut: Node | None = None) -> set[tuple[Node, str]]:
+        """Transitive control dependences (within one iteration of the loop headed by `cut`, if given)."""
         out: set[tuple[Node, str]] = set()
         work = [n]
         seen = {n}
         while work:
             cur = work.pop()
-            for b, lab in self.control_deps(cur):
+            for b, lab in self.control_deps(cur, cut):
                 out.add((b, lab))
                 if b not in seen:
                     seen.add(b)
